@@ -437,10 +437,19 @@ Fixpoint mmatch (q p : path) : bool :=
 
 Record subscriber := {
   sb_target : string;
-  sb_query : path;               (* as registered by subscribe.addSubscription *)
+  sb_query : path;               (* as registered by subscribe.addSubscription: first entry *)
+  sb_more : list path;           (* the registrations of the further subscription entries *)
   sb_queue : list qitem;
   sb_client : cstate
 }.
+
+(** every path the subscriber is registered under in the match trie *)
+Definition sb_queries (sb : subscriber) : list path := sb_query sb :: sb_more sb.
+
+(** does an updated path reach this subscriber (match.Update over all its
+    registrations; the client is offered a notification at most once) *)
+Definition sub_matches (sb : subscriber) (full : path) : bool :=
+  mmatch (sb_query sb) full || existsb (fun Q => mmatch Q full) (sb_more sb).
 
 (** coalesce.Queue.Insert: a pointer already pending is not queued again *)
 Definition qitem_is_leaf (g : nat) (i : qitem) : bool :=
@@ -474,8 +483,8 @@ Definition feed_leaf (s : option subscriber) (g : nat) (fullpath : path) : optio
   match s with
   | None => None
   | Some sb =>
-      if mmatch (sb_query sb) fullpath
-      then Some {| sb_target := sb_target sb; sb_query := sb_query sb;
+      if sub_matches sb fullpath
+      then Some {| sb_target := sb_target sb; sb_query := sb_query sb; sb_more := sb_more sb;
                    sb_queue := q_insert_leaf (sb_queue sb) g; sb_client := sb_client sb |}
       else s
   end.
@@ -487,8 +496,8 @@ Definition feed_del (s : option subscriber) (d : delrec) : option subscriber :=
       let full := (if str_nonempty (d_target d) then [d_target d] else [])
                   ++ (if str_nonempty (d_origin d) then [d_origin d] else [])
                   ++ to_strings_gp (d_path d) false in
-      if mmatch (sb_query sb) full
-      then Some {| sb_target := sb_target sb; sb_query := sb_query sb;
+      if sub_matches sb full
+      then Some {| sb_target := sb_target sb; sb_query := sb_query sb; sb_more := sb_more sb;
                    sb_queue := sb_queue sb ++ [QDel d]; sb_client := sb_client sb |}
       else s
   end.
@@ -662,8 +671,11 @@ Definition ingest (st : pstate) (name : string) (it : item) : pstate :=
 
 (** * Subscribe *)
 
-(** a client subscription: SubscriptionList prefix + one Subscription path *)
-Record cquery := { cq_prefix : gpath; cq_path : gpath }.
+(** a client subscription: SubscriptionList prefix + the paths of its
+    Subscription entries (the first one, then the others) *)
+Record cquery := { cq_prefix : gpath; cq_path : gpath; cq_more : list gpath }.
+
+Definition cq_paths (q : cquery) : list gpath := cq_path q :: cq_more q.
 
 (** path.CompletePath *)
 Definition complete_path (pre p : gpath) : option path :=
@@ -681,18 +693,45 @@ Definition sub_query (q : cquery) : path :=
       then [g_origin (cq_path q)] else [])
   ++ to_strings_gp (cq_path q) false.
 
+(** the registration of one entry: addSubscription derives each entry's query
+    from the SAME prefix strings (an origin taken from one entry's path does not
+    carry over to the next entry) *)
+Definition entry_query (pre p : gpath) : path :=
+  sub_query {| cq_prefix := pre; cq_path := p; cq_more := [] |}.
+
+Definition sub_queries (q : cquery) : list path :=
+  sub_query q :: map (entry_query (cq_prefix q)) (cq_more q).
+
 Inductive sub_result :=
 | SubOk
 | SubInvalid          (* InvalidArgument: missing target *)
 | SubNotFound         (* NotFound: no such target *)
 | SubQueryError.      (* CompletePath failed *)
 
-(** the snapshot walk of processSubscription: the leaves the query selects
-    (cache.Query on the target's tree) *)
+(** a leaf reached through two overlapping entries is queued once (same pointer) *)
+Fixpoint dedup_nat (l : list nat) : list nat :=
+  match l with
+  | [] => []
+  | g :: l' => g :: filter (fun x => negb (Nat.eqb x g)) (dedup_nat l')
+  end.
+
+(** the snapshot walk of processSubscription: for every entry in turn, the
+    leaves its completed path selects (cache.Query on the target's tree); a
+    path.CompletePath error ends the subscription *)
+Fixpoint snapshot_entries (t : tree nat) (pre : gpath) (ps : list gpath) : option (list nat) :=
+  match ps with
+  | [] => Some []
+  | p :: ps' =>
+      match complete_path pre p, snapshot_entries t pre ps' with
+      | Some fp, Some gs => Some (map snd (query t fp) ++ gs)
+      | _, _ => None
+      end
+  end.
+
 Definition snapshot (t : tree nat) (q : cquery) : option (list nat) :=
-  match complete_path (cq_prefix q) (cq_path q) with
+  match snapshot_entries t (cq_prefix q) (cq_paths q) with
+  | Some gs => Some (dedup_nat gs)
   | None => None
-  | Some fp => Some (map snd (query t fp))
   end.
 
 (** Subscribe (STREAM): registration in the match trie and the snapshot walk,
@@ -709,6 +748,7 @@ Definition subscribe_stream (st : pstate) (q : cquery) : pstate * sub_result :=
            | Some gs =>
                ({| ps_cache := ps_cache st; ps_heap := ps_heap st; ps_gen := ps_gen st;
                    ps_sub := Some {| sb_target := tgt; sb_query := sub_query q;
+                                     sb_more := map (entry_query (cq_prefix q)) (cq_more q);
                                      sb_queue := map QLeaf gs ++ [QSync];
                                      sb_client := client0 |};
                    ps_fault := ps_fault st |}, SubOk)
@@ -737,7 +777,7 @@ Definition send_one (st : pstate) : pstate :=
       match sb_queue sb with
       | i :: q' =>
           {| ps_cache := ps_cache st; ps_heap := ps_heap st; ps_gen := ps_gen st;
-             ps_sub := Some {| sb_target := sb_target sb; sb_query := sb_query sb; sb_queue := q';
+             ps_sub := Some {| sb_target := sb_target sb; sb_query := sb_query sb; sb_more := sb_more sb; sb_queue := q';
                                sb_client := deliver (ps_heap st) (sb_client sb) i |};
              ps_fault := ps_fault st |}
       | [] => st
@@ -796,7 +836,7 @@ Definition drain (st : pstate) : pstate :=
   match ps_sub st with
   | Some sb =>
       {| ps_cache := ps_cache st; ps_heap := ps_heap st; ps_gen := ps_gen st;
-         ps_sub := Some {| sb_target := sb_target sb; sb_query := sb_query sb; sb_queue := [];
+         ps_sub := Some {| sb_target := sb_target sb; sb_query := sb_query sb; sb_more := sb_more sb; sb_queue := [];
                            sb_client := drain_queue (ps_heap st) (sb_client sb) (sb_queue sb) |};
          ps_fault := ps_fault st |}
   | None => st
@@ -1068,6 +1108,10 @@ Definition stamp_paths (name : string) (f : tstate) : list (path * scalar) :=
 (** the leaves a subscription selects *)
 Definition selects (q : path) (l : list (path * scalar)) : list (path * scalar) :=
   filter (fun pv => is_prefix q (fst pv)) l.
+
+(** ... a subscription with several entries: the leaves below any of them *)
+Definition selects_any (qs : list path) (l : list (path * scalar)) : list (path * scalar) :=
+  filter (fun pv => existsb (fun q => is_prefix q (fst pv)) qs) l.
 
 Definition glob_free (p : path) : bool := forallb (fun e => negb (is_glob e)) p.
 
